@@ -509,6 +509,728 @@ func init() {
 			}
 		}})
 
+	register(&Rule{ID: "N5", Min: 20, Text: "an operation arrives with the tickets its execution dereferences: operations are client-supplied and the server executes them when it builds a snapshot (in a background goroutine — a panic there ends the process, and again at every later build). In the converter's operation decoders (everything FromOperations reaches inside package converter), every *time.Ticket handed to a constructor of package operations or to a constructor/identity function of the CRDT model comes from a decoding call that cannot answer (nil, nil) — a decoder is nilable when it has a return of two nils, or passes on the result of a nilable one for an argument it has not found non-nil — or is reached only on an edge where the field or the ticket itself was found non-nil. Exempt: the execution time (absent on a reverse operation that has not run; FromChanges requires it on every operation of a change — second clause) and tickets that record an optional event (removal, move, merge). Second clause: FromChanges compares every operation's ExecutedAt() with nil and leaves with an error before the change is built",
+		Run: func(x *Ctx) {
+			entry := x.fn(convPkg + ".FromOperations")
+			fromChanges := x.fn(convPkg + ".FromChanges")
+			if entry == nil || fromChanges == nil {
+				return
+			}
+			tkT := x.P.Named("pkg/document/time.Ticket")
+			if tkT == nil {
+				x.C.Unresolved(x.id(), "time.Ticket")
+				return
+			}
+			isTicketPtr := func(t types.Type) bool {
+				p, ok := t.(*types.Pointer)
+				return ok && isNamed(p.Elem(), tkT)
+			}
+			// nilable decoders of package converter: (*Ticket, error) functions that may answer (nil, nil)
+			nilable := map[*ssa.Function]bool{}
+			conv := x.P.FuncsIn(convPkg)
+			for changed := true; changed; {
+				changed = false
+				for _, f := range conv {
+					if nilable[f] || len(f.Blocks) == 0 || f.Signature.Results().Len() != 2 || !isTicketPtr(f.Signature.Results().At(0).Type()) {
+						continue
+					}
+					for _, r := range prog.Returns(f) {
+						if len(r.Results) != 2 {
+							continue
+						}
+						if prog.IsNilConst(r.Results[0]) && prog.IsNilConst(r.Results[1]) {
+							nilable[f] = true
+							changed = true
+							break
+						}
+						// passes on the result of a nilable decoder
+						if ex, ok := r.Results[0].(*ssa.Extract); ok {
+							if c, ok := ex.Tuple.(*ssa.Call); ok && c.Call.StaticCallee() != nil && nilable[c.Call.StaticCallee()] && len(c.Call.Args) > 0 {
+								arg := c.Call.Args[0]
+								same := VP{"the argument", func(w ssa.Value) bool { return sameAccessPath(w, arg) || prog.Strip(w) == prog.Strip(arg) }}
+								if !x.quietGuarded(c, []Cmp{{L: same, R: vpNil, Want: NE}}) {
+									nilable[f] = true
+									changed = true
+									break
+								}
+							}
+						}
+					}
+				}
+			}
+			if len(nilable) == 0 {
+				x.C.Unresolved(x.id(), "a nilable ticket decoder (fromTimeTicket)")
+				return
+			}
+			optional := map[string]string{
+				"SetRemovedAt": "removal is an optional event", "SetMovedAt": "a move is an optional event", "SetPosMovedAt": "a move is an optional event",
+				"SetMergedAt": "a merge is an optional event", "SetUpdatedAt": "optional stamp",
+			}
+			n := 0
+			cnt := map[string]int{}
+			for fn := range x.closureOf([]*ssa.Function{entry}, []string{convPkg}) {
+				if len(fn.Blocks) == 0 {
+					continue
+				}
+				for _, c := range prog.CallsIn(fn) {
+					callee := c.Common().StaticCallee()
+					if callee == nil || callee.Pkg == nil {
+						continue
+					}
+					cp := strings.TrimPrefix(callee.Pkg.Pkg.Path(), prog.Mod+"/")
+					if cp != "pkg/document/operations" && cp != crdtPkg {
+						continue
+					}
+					if _, opt := optional[callee.Name()]; opt {
+						continue
+					}
+					for i, a := range c.Common().Args {
+						if !isTicketPtr(a.Type()) {
+							continue
+						}
+						var src *ssa.Call
+						var srcVal ssa.Value
+						prog.Reaches(a, func(w ssa.Value) bool {
+							if ex, ok := w.(*ssa.Extract); ok && ex.Index == 0 {
+								if cc, isC := ex.Tuple.(*ssa.Call); isC && cc.Call.StaticCallee() != nil && nilable[cc.Call.StaticCallee()] {
+									src, srcVal = cc, ex
+									return true
+								}
+							}
+							return false
+						})
+						if src == nil || len(src.Call.Args) == 0 {
+							continue
+						}
+						field := src.Call.Args[0]
+						if f := prog.LoadedField(field); f != nil && f.Name() == "ExecutedAt" {
+							continue // required per change, second clause
+						}
+						n++
+						k0 := prog.FnName(fn) + " " + callee.Name()
+						cnt[k0]++
+						same := VP{"the decoded field", func(w ssa.Value) bool { return sameAccessPath(w, field) || prog.Strip(w) == prog.Strip(field) }}
+						val := VP{"the decoded ticket", func(w ssa.Value) bool { return prog.Strip(w) == prog.Strip(srcVal) }}
+						ok := x.quietGuarded(c, []Cmp{{L: same, R: vpNil, Want: NE}, {L: val, R: vpNil, Want: NE}})
+						x.check(ok, fmt.Sprintf("func=%s call=%s#%d arg%d-ticket-present", prog.FnName(fn), callee.Name(), cnt[k0], i), x.pos(c),
+							"the ticket cannot be absent here", "a ticket decoded from a field that may be absent is handed to "+callee.Name()+" in an operation decoder: executing the operation dereferences it — a structurally valid change without that field panics on every replica that applies it, and on the server at the snapshot build")
+					}
+				}
+			}
+			{
+				// decodings that cannot answer (nil, nil) need no guard at the hand-off; they are listed as what was analysed
+				for fn := range x.closureOf([]*ssa.Function{entry}, []string{convPkg}) {
+					for _, c := range prog.CallsIn(fn) {
+						cal := c.Common().StaticCallee()
+						if cal != nil && cal.Pkg == fn.Pkg && cal.Signature.Results().Len() == 2 && isTicketPtr(cal.Signature.Results().At(0).Type()) && !nilable[cal] {
+							n++
+							cnt[prog.FnName(fn)+" required"]++
+							x.hold(fmt.Sprintf("func=%s required-ticket-decoding#%d", prog.FnName(fn), cnt[prog.FnName(fn)+" required"]), x.pos(c), "decoded by "+cal.Name()+", which never answers (nil, nil)")
+						}
+					}
+				}
+			}
+			// second clause
+			okExec := false
+			var at ssa.Instruction
+			for _, b := range fromChanges.Blocks {
+				iff := prog.IfOf(b)
+				if iff == nil {
+					continue
+				}
+				bo, ok := iff.Cond.(*ssa.BinOp)
+				if !ok || (bo.Op != token.EQL && bo.Op != token.NEQ) {
+					continue
+				}
+				var call *ssa.Call
+				if c, ok := prog.Strip(bo.X).(*ssa.Call); ok && prog.IsNilConst(bo.Y) {
+					call = c
+				} else if c, ok := prog.Strip(bo.Y).(*ssa.Call); ok && prog.IsNilConst(bo.X) {
+					call = c
+				}
+				if call == nil || !call.Call.IsInvoke() || call.Call.Method.Name() != "ExecutedAt" {
+					continue
+				}
+				nilSucc := b.Succs[0]
+				if bo.Op == token.NEQ {
+					nilSucc = b.Succs[1]
+				}
+				// the nil edge leaves with an error
+				leaves := false
+				for _, ins := range nilSucc.Instrs {
+					if r, ok := ins.(*ssa.Return); ok && len(r.Results) == 2 && !prog.IsNilConst(r.Results[1]) {
+						leaves = true
+					}
+				}
+				if leaves {
+					okExec = true
+					at = iff
+				}
+			}
+			n++
+			if okExec {
+				x.hold("func="+prog.FnName(fromChanges)+" every-operation-of-a-change-has-an-execution-time", x.pos(at), "FromChanges leaves with an error when an operation has no execution time")
+			} else {
+				x.fail("func="+prog.FnName(fromChanges)+" every-operation-of-a-change-has-an-execution-time", x.fpos(fromChanges), "FromChanges no longer refuses an operation without an execution time: every CRDT method compares it with stored tickets and panics on nil")
+			}
+			x.C.Count("ticket hand-offs in operation decoders", n)
+		}})
+
+	register(&Rule{ID: "R.full", Min: 2, Text: "a fixed-size read is a full read: in the value decoders of packages time, crdt, converter and database, reading into a buffer through an io.Reader's Read method (bytes.Reader.Read, …) is only done where the byte count it returns is looked at; otherwise the read goes through io.ReadFull / io.ReadAtLeast / binary.Read. Read may deliver fewer bytes than asked for with a nil error, so a truncated stored value (a version vector cut inside its last entry) decodes to a wrong value instead of an error",
+		Run: func(x *Ctx) {
+			n := 0
+			cnt := map[string]int{}
+			for _, fn := range x.P.FuncsIn("pkg/document/time", crdtPkg, convPkg, "server/backend/database", "server/backend/database/mongo", "server/backend/database/memory") {
+				if len(fn.Blocks) == 0 {
+					continue
+				}
+				for _, c := range prog.CallsIn(fn) {
+					o := prog.CallObj(c)
+					if o == nil {
+						continue
+					}
+					full := o.Pkg() != nil && ((o.Pkg().Path() == "io" && (o.Name() == "ReadFull" || o.Name() == "ReadAtLeast")) || (o.Pkg().Path() == "encoding/binary" && o.Name() == "Read"))
+					sig, _ := o.Type().(*types.Signature)
+					raw := o.Name() == "Read" && sig != nil && sig.Recv() != nil && sig.Params().Len() == 1 && sig.Results().Len() == 2
+					if raw {
+						if sl, ok := sig.Params().At(0).Type().Underlying().(*types.Slice); !ok || !types.Identical(sl.Elem(), types.Typ[types.Byte]) {
+							raw = false
+						}
+					}
+					if !full && !raw {
+						continue
+					}
+					n++
+					cnt[prog.FnName(fn)]++
+					k := fmt.Sprintf("func=%s read#%d complete-or-count-checked", prog.FnName(fn), cnt[prog.FnName(fn)])
+					if full {
+						x.hold(k, x.pos(c), "read through "+o.Name())
+						continue
+					}
+					counted := false
+					if call, ok := c.(*ssa.Call); ok {
+						for _, r := range *call.Referrers() {
+							if ex, ok := r.(*ssa.Extract); ok && ex.Index == 0 && len(*ex.Referrers()) > 0 {
+								counted = true
+							}
+						}
+					}
+					x.check(counted, k, x.pos(c), "the count returned by Read is looked at", "a fixed-size read through Read whose byte count is discarded: on truncated input Read fills part of the buffer and returns a nil error, and the rest of the value is decoded from zeroes")
+				}
+			}
+			if n < 2 {
+				x.C.Vacuous(x.id()+" reads in value decoders", n, 2)
+			}
+		}})
+
+	register(&Rule{ID: "RANGE.label", Min: 2, Text: "a rebuilt document is labelled with the end of the range it was built from: in package packs, a function that reads a range of the change log (Database.FindChangesBetweenServerSeqs(from, to)) and applies it as one pack stamps the pack's checkpoint with that same upper bound (Checkpoint.NextServerSeq(to): the same variable, field path or parameter) — the document's server sequence, under which a snapshot is stored or cached, then says exactly which changes it contains. Reading up to a fresher head while labelling with the older one stores a snapshot that already contains later changes; whoever loads it applies them a second time",
+		Run: func(x *Ctx) {
+			n := 0
+			for _, fn := range x.P.FuncsIn("server/packs") {
+				if len(fn.Blocks) == 0 {
+					continue
+				}
+				var reads, stamps []ssa.CallInstruction
+				for _, c := range prog.CallsIn(fn) {
+					cc := c.Common()
+					if cc.IsInvoke() && cc.Method.Name() == "FindChangesBetweenServerSeqs" {
+						reads = append(reads, c)
+					}
+					if o := prog.CallObj(c); o != nil && o.Name() == "NextServerSeq" {
+						stamps = append(stamps, c)
+					}
+				}
+				if len(reads) == 0 || len(stamps) == 0 {
+					continue
+				}
+				for i, r := range reads {
+					args := r.Common().Args
+					to := args[len(args)-1]
+					for j, st := range stamps {
+						// only a stamp that labels a pack built from these changes
+						if !prog.MayPrecede(r, st) {
+							continue
+						}
+						n++
+						sa := st.Common().Args
+						lab := sa[len(sa)-1]
+						ok := sameAccessPath(lab, to) || prog.Strip(lab) == prog.Strip(to)
+						x.check(ok, fmt.Sprintf("func=%s range-read#%d stamp#%d label=upper-bound", prog.FnName(fn), i+1, j+1), x.pos(st),
+							"the pack is stamped with the upper bound of the range that was read", "the changes are read up to one server sequence and the pack that applies them is stamped with another: the rebuilt document claims a position in the log that does not match what it contains")
+					}
+				}
+			}
+			if n < 2 {
+				x.C.Vacuous(x.id()+" range reads applied as a pack", n, 2)
+			}
+		}})
+
+	register(&Rule{ID: "CP.ack", Min: 2, Text: "the acknowledged ClientSeq is the ClientSeq of what was stored: in both backends' CreateChangeInfos the checkpoint handed back to the push advances its ClientSeq only through Checkpoint.SyncClientSeq applied to the ClientSeq field of a change being stored — never by counting (NextClientSeq, IncreaseClientSeq). Counting agrees with the stored numbers until a change of the request is dropped before storage (a presence-only change of a presence-less document): the server then stores change #2 and acknowledges #1, the client sends the edit again, it passes the duplicate filter and is stored twice",
+		Run: func(x *Ctx) {
+			chSeq := x.P.Field("server/backend/database.ChangeInfo.ClientSeq")
+			if chSeq == nil {
+				x.C.Unresolved(x.id(), "ChangeInfo.ClientSeq")
+				return
+			}
+			n := 0
+			for _, spec := range []string{"server/backend/database/memory.(*DB).CreateChangeInfos", "server/backend/database/mongo.(*Client).CreateChangeInfos"} {
+				fn := x.fn(spec)
+				if fn == nil {
+					continue
+				}
+				syncs, counts := 0, ""
+				okArg := true
+				for _, g := range append([]*ssa.Function{fn}, prog.Closures(fn)...) {
+					for _, c := range prog.CallsIn(g) {
+						o := prog.CallObj(c)
+						if o == nil || o.Pkg() == nil || !strings.HasSuffix(o.Pkg().Path(), "/pkg/document/change") {
+							continue
+						}
+						switch o.Name() {
+						case "SyncClientSeq":
+							syncs++
+							args := c.Common().Args
+							if prog.LoadedField(args[len(args)-1]) != chSeq {
+								okArg = false
+							}
+						case "NextClientSeq", "IncreaseClientSeq":
+							counts = o.Name() + " at " + x.pos(c)
+						}
+					}
+				}
+				n++
+				x.check(syncs > 0 && okArg && counts == "", "func="+prog.FnName(fn)+" acknowledged-ClientSeq=stored-ClientSeq", x.fpos(fn),
+					"the checkpoint's ClientSeq is synchronised with the ClientSeq of each stored change",
+					"the checkpoint returned by CreateChangeInfos does not take its ClientSeq from the stored changes ("+counts+"): when a change of the request is not stored the acknowledgement and the log disagree, and the client's resend is stored twice")
+			}
+			if n < 2 {
+				x.C.Vacuous(x.id()+" backends", n, 2)
+			}
+		}})
+
+	register(&Rule{ID: "K.role", Min: 30, Text: "sequence numbers and clocks are not interchanged: three counters of the same Go types travel side by side — the per-client ClientSeq, the per-document ServerSeq and the Lamport clock — and many functions take two of them next to each other (change.NewID(clientSeq, serverSeq, lamport, …)). At every call, anywhere in the production packages, of a module function whose parameter is named for one of these roles, the argument is not a value read from a field, accessor or parameter named for another of them. A server sequence in the lamport slot gives the server's own changes a clock that goes backwards: they lose every last-writer-wins race against what the server had already seen",
+		Run: func(x *Ctx) {
+			roles := []string{"serverseq", "lamport", "clientseq"}
+			roleOf := func(name string) string {
+				l := strings.ToLower(name)
+				for _, r := range roles {
+					if strings.Contains(l, r) {
+						return r
+					}
+				}
+				return ""
+			}
+			n := 0
+			cnt := map[string]int{}
+			for _, fn := range x.P.ProdFuncs() {
+				if len(fn.Blocks) == 0 || (fn.Origin() != nil && fn.Origin() != fn) {
+					continue
+				}
+				for _, c := range prog.CallsIn(fn) {
+					callee := c.Common().StaticCallee()
+					if callee == nil || callee.Pkg == nil || !strings.HasPrefix(callee.Pkg.Pkg.Path(), prog.Mod) {
+						continue
+					}
+					for i, pm := range callee.Params {
+						want := roleOf(pm.Name())
+						if want == "" || i >= len(c.Common().Args) {
+							continue
+						}
+						if b, ok := pm.Type().Underlying().(*types.Basic); !ok || b.Info()&types.IsInteger == 0 {
+							continue
+						}
+						// the roles the argument is read from: walk through conversions, arithmetic and phis
+						got := map[string]bool{}
+						seen := map[ssa.Value]bool{}
+						var walk func(v ssa.Value, d int)
+						walk = func(v ssa.Value, d int) {
+							if v == nil || seen[v] || d > 8 {
+								return
+							}
+							seen[v] = true
+							if f := prog.LoadedField(v); f != nil {
+								if r := roleOf(f.Name()); r != "" {
+									got[r] = true
+								}
+								return
+							}
+							switch t := v.(type) {
+							case *ssa.Parameter:
+								if r := roleOf(t.Name()); r != "" {
+									got[r] = true
+								}
+							case *ssa.Call:
+								name := ""
+								if t.Call.IsInvoke() {
+									name = t.Call.Method.Name()
+								} else if o := prog.CallObj(t); o != nil {
+									name = o.Name()
+								}
+								if r := roleOf(name); r != "" {
+									got[r] = true
+								}
+							case *ssa.Convert:
+								walk(t.X, d+1)
+							case *ssa.ChangeType:
+								walk(t.X, d+1)
+							case *ssa.BinOp:
+								walk(t.X, d+1)
+								walk(t.Y, d+1)
+							case *ssa.Phi:
+								for _, e := range t.Edges {
+									walk(e, d+1)
+								}
+							case *ssa.UnOp:
+								walk(t.X, d+1)
+							case *ssa.Extract:
+								walk(t.Tuple, d+1)
+							}
+						}
+						walk(c.Common().Args[i], 0)
+						if len(got) == 0 {
+							continue // a constant or a value of no named role
+						}
+						n++
+						k0 := prog.FnName(fn) + ">" + callee.Name() + ">" + pm.Name()
+						cnt[k0]++
+						bad := ""
+						for r := range got {
+							if r != want && !got[want] {
+								bad = r
+							}
+						}
+						x.check(bad == "", fmt.Sprintf("func=%s call=%s#%d param=%s argument-of-the-same-role", prog.FnName(fn), callee.Name(), cnt[k0], pm.Name()), x.pos(c),
+							"the argument is read from a source of the parameter's role", "the "+pm.Name()+" parameter of "+callee.Name()+" is given a value read from a "+bad+" source: two counters of the same type were interchanged")
+					}
+				}
+			}
+			if n < 30 {
+				x.C.Vacuous(x.id()+" role-named arguments", n, 30)
+			}
+		}})
+
+	register(&Rule{ID: "N.exact", Min: 3, Text: "a payload that fills a fixed-size array has exactly that size: in packages time and crdt, wherever bytes that come from outside are copied into (copy(arr[:], data)) or converted to ([N]byte(data)) an array of constant length N, the site is reachable only on an edge where len(data) == N was established — not merely len(data) <= N. copy stops at the shorter operand without complaint, so a short payload (a dedup counter's registers cut off) is accepted and the rest of the array keeps its old or zero content: the value decodes to a different one instead of an error",
+		Run: func(x *Ctx) {
+			n := 0
+			cnt := map[string]int{}
+			for _, fn := range x.P.FuncsIn("pkg/document/time", crdtPkg) {
+				if len(fn.Blocks) == 0 {
+					continue
+				}
+				type site struct {
+					at  ssa.Instruction
+					src ssa.Value
+					n   int64
+				}
+				var sites []site
+				arrLen := func(t types.Type) (int64, bool) {
+					if p, ok := t.Underlying().(*types.Pointer); ok {
+						t = p.Elem()
+					}
+					if a, ok := t.Underlying().(*types.Array); ok {
+						return a.Len(), true
+					}
+					return 0, false
+				}
+				for _, b := range fn.Blocks {
+					for _, ins := range b.Instrs {
+						switch t := ins.(type) {
+						case *ssa.Call:
+							bi, ok := t.Call.Value.(*ssa.Builtin)
+							if !ok || bi.Name() != "copy" || len(t.Call.Args) != 2 {
+								continue
+							}
+							dst, ok := t.Call.Args[0].(*ssa.Slice)
+							if !ok || dst.Low != nil || dst.High != nil {
+								continue
+							}
+							if l, ok := arrLen(dst.X.Type()); ok {
+								sites = append(sites, site{t, t.Call.Args[1], l})
+							}
+						case *ssa.SliceToArrayPointer:
+							if l, ok := arrLen(t.Type()); ok {
+								sites = append(sites, site{t, t.X, l})
+							}
+						}
+					}
+				}
+				for _, st := range sites {
+					// the source slice, through re-slicings
+					src := st.src
+					for {
+						if sl, ok := src.(*ssa.Slice); ok {
+							src = sl.X
+							continue
+						}
+						break
+					}
+					if _, isParamOrCall := prog.Strip(src).(*ssa.Const); isParamOrCall {
+						continue
+					}
+					n++
+					cnt[prog.FnName(fn)]++
+					want := st.n
+					lenOf := VP{"len(payload)", func(v ssa.Value) bool {
+						c, ok := prog.Strip(v).(*ssa.Call)
+						if !ok {
+							return false
+						}
+						bi, ok := c.Call.Value.(*ssa.Builtin)
+						return ok && bi.Name() == "len" && (sameAccessPath(c.Call.Args[0], src) || prog.Strip(c.Call.Args[0]) == prog.Strip(src))
+					}}
+					size := VP{fmt.Sprintf("%d", want), func(v ssa.Value) bool {
+						k, ok := prog.IntConst(v)
+						return ok && k == want
+					}}
+					ok := x.quietGuarded(st.at, []Cmp{{L: lenOf, R: size, Want: EQ}})
+					x.check(ok, fmt.Sprintf("func=%s fill#%d len==%d", prog.FnName(fn), cnt[prog.FnName(fn)], want), x.pos(st.at),
+						"the payload's length was found equal to the array's", fmt.Sprintf("bytes are copied into a %d-byte array without len == %d having been established on every path: a shorter payload is accepted and fills only part of the array", want, want))
+				}
+			}
+			if n < 3 {
+				x.C.Vacuous(x.id()+" fixed-size fills", n, 3)
+			}
+		}})
+
+	register(&Rule{ID: "DEC.fresh", Min: 2, Text: "one decode target per item: in the production packages, a message that is filled by an Unmarshal/Decode call inside a loop and whose address is kept by that loop (appended to a slice, stored in a map, a field or an element) is allocated inside the loop. Hoisted out of it — it looks like saving an allocation — every kept pointer is the same message and all of them show what the last iteration decoded: a stored change with several operations comes back as N copies of its last operation, and everything the server rebuilds from the log (snapshots, revisions, compaction) diverges from what the clients hold",
+		Run: func(x *Ctx) {
+			n := 0
+			for _, fn := range x.P.ProdFuncs() {
+				if len(fn.Blocks) == 0 || (fn.Origin() != nil && fn.Origin() != fn) {
+					continue
+				}
+				loops := prog.Loops(fn)
+				if len(loops) == 0 {
+					continue
+				}
+				k := 0
+				done := map[*ssa.Alloc]bool{}
+				for _, l := range loops {
+					for b := range l.Body {
+						for _, ins := range b.Instrs {
+							c, ok := ins.(ssa.CallInstruction)
+							if !ok {
+								continue
+							}
+							name := ""
+							if c.Common().IsInvoke() {
+								name = c.Common().Method.Name()
+							} else if o := prog.CallObj(c); o != nil {
+								name = o.Name()
+							}
+							if name != "Unmarshal" && name != "Decode" && name != "UnmarshalBSON" && name != "UnmarshalJSON" {
+								continue
+							}
+							args := c.Common().Args
+							if len(args) == 0 {
+								continue
+							}
+							tgt := args[len(args)-1]
+							if mi, isMI := tgt.(*ssa.MakeInterface); isMI {
+								tgt = mi.X
+							}
+							a, isA := tgt.(*ssa.Alloc)
+							if !isA || done[a] {
+								continue
+							}
+							// kept by the loop: its address is stored somewhere inside the loop
+							kept := false
+							for _, r := range *a.Referrers() {
+								if st, isSt := r.(*ssa.Store); isSt && st.Val == ssa.Value(a) && l.Body[st.Block()] {
+									kept = true
+								}
+								if mu, isMU := r.(*ssa.MapUpdate); isMU && mu.Value == ssa.Value(a) && l.Body[mu.Block()] {
+									kept = true
+								}
+							}
+							if !kept {
+								continue
+							}
+							done[a] = true
+							k++
+							n++
+							x.check(l.Body[a.Block()], fmt.Sprintf("func=%s decode-target#%d fresh-per-iteration", prog.FnName(fn), k), x.pos(c),
+								"the message decoded into is allocated in the loop that keeps its address", "the message the loop decodes into and keeps the address of is allocated once outside the loop (at "+x.pos(a)+"): every kept pointer is the same message, holding what the last iteration decoded")
+						}
+					}
+				}
+			}
+			if n < 2 {
+				x.C.Vacuous(x.id()+" per-item decode targets", n, 2)
+			}
+		}})
+
+	register(&Rule{ID: "LOCK.subject", Min: 3, Text: "the document that is locked is the document that is written: the client-facing handlers take the document, pull and push locks (and verify access) under the key carried in the change pack, while the document row is found by the id carried next to it. In every function of server/rpc that finds a DocInfo by reference key and then calls packs.PushPull, that call is reachable only on an edge where DocInfo.Key == Pack.DocumentKey was established; a handler that gets the row by the pack's key (attach: find-or-create) has nothing to compare; the cluster-internal detach is exempt (its key and id come from one row read by the calling server). Without the comparison a request \"id of A, key of B\" runs under B's locks only: A's exclusive compaction lock no longer excludes it, and old-generation rows land in A's new log",
+		Run: func(x *Ctx) {
+			pp := x.P.FnObj("server/packs.PushPull")
+			docKeyF := x.P.Field("server/backend/database.DocInfo.Key")
+			packKeyF := x.P.Field(changePkg + ".Pack.DocumentKey")
+			diT := x.P.Named("server/backend/database.DocInfo")
+			if pp == nil || docKeyF == nil || packKeyF == nil || diT == nil {
+				x.C.Unresolved(x.id(), "packs.PushPull / DocInfo.Key / Pack.DocumentKey")
+				return
+			}
+			n := 0
+			for _, fn := range x.P.FuncsIn("server/rpc") {
+				if len(fn.Blocks) == 0 {
+					continue
+				}
+				calls := callsTo([]*ssa.Function{fn}, pp)
+				if len(calls) == 0 {
+					continue
+				}
+				if fn.Signature.Recv() != nil && namedOf(fn.Signature.Recv().Type()) != nil && namedOf(fn.Signature.Recv().Type()).Obj().Name() == "clusterServer" {
+					// the cluster-internal detach: key and id of its request are taken from one DocInfo row by the calling
+					// server (clients.Deactivate), and the call is authenticated by the cluster secret
+					continue
+				}
+				// how the handler gets its DocInfo
+				byKey, byRef := false, false
+				for _, c := range prog.CallsIn(fn) {
+					call, ok := c.(*ssa.Call)
+					if !ok {
+						continue
+					}
+					res := call.Call.Signature().Results()
+					if res.Len() == 0 {
+						continue
+					}
+					if pt, ok := res.At(0).Type().(*types.Pointer); !ok || !isNamed(pt.Elem(), diT) {
+						continue
+					}
+					usesPackKey := false
+					for _, a := range call.Call.Args {
+						if prog.Reaches(a, func(w ssa.Value) bool { return prog.LoadedField(w) == packKeyF }) {
+							usesPackKey = true
+						}
+					}
+					if usesPackKey {
+						byKey = true
+					} else {
+						byRef = true
+					}
+				}
+				if !byRef {
+					if byKey {
+						n++
+						x.hold("func="+prog.FnName(fn)+" row-found-by-the-pack's-key", x.fpos(fn), "the document row is found (or created) under the key in the change pack")
+					}
+					continue
+				}
+				for i, c := range calls {
+					n++
+					cmp := Cmp{L: vpField(docKeyF), R: vpField(packKeyF), Want: EQ}
+					x.guardedSite(fmt.Sprintf("func=%s PushPull#%d row-key==pack-key", prog.FnName(fn), i+1), c, []Cmp{cmp}, nil)
+				}
+			}
+			if n < 3 {
+				x.C.Vacuous(x.id()+" handlers that push", n, 3)
+			}
+		}})
+
+	register(&Rule{ID: "NUM.class", Min: 10, Text: "an integer operand is never routed through floating point: in the numeric value paths of packages json and crdt (counters and primitives; the HyperLogLog estimate, which is a real number by nature, excepted) every conversion between numeric types keeps an integer an integer — integer to integer (wrap-around is the documented 32/64-bit behaviour), float to float, float to integer (the documented truncation of a fractional operand) — and none turns an integer of 64 bits, or of platform width, into a float: above 2^53 the operand is rounded, and an integer counter no longer receives the low 32 bits of a wide operand",
+		Run: func(x *Ctx) {
+			n := 0
+			cnt := map[string]int{}
+			for _, fn := range x.P.FuncsIn("pkg/document/json", crdtPkg) {
+				if len(fn.Blocks) == 0 {
+					continue
+				}
+				if fn.Signature.Recv() != nil && namedOf(fn.Signature.Recv().Type()) != nil && namedOf(fn.Signature.Recv().Type()).Obj().Name() == "HLL" {
+					continue
+				}
+				for _, b := range fn.Blocks {
+					for _, ins := range b.Instrs {
+						cv, ok := ins.(*ssa.Convert)
+						if !ok {
+							continue
+						}
+						from, ok1 := cv.X.Type().Underlying().(*types.Basic)
+						to, ok2 := cv.Type().Underlying().(*types.Basic)
+						if !ok1 || !ok2 || from.Info()&types.IsNumeric == 0 || to.Info()&types.IsNumeric == 0 {
+							continue
+						}
+						if _, isK := cv.X.(*ssa.Const); isK {
+							continue
+						}
+						n++
+						cnt[prog.FnName(fn)]++
+						wide := from.Kind() == types.Int64 || from.Kind() == types.Uint64 || from.Kind() == types.Int || from.Kind() == types.Uint || from.Kind() == types.Uintptr
+						bad := from.Info()&types.IsInteger != 0 && to.Info()&types.IsFloat != 0 && wide
+						x.check(!bad, fmt.Sprintf("func=%s conversion#%d %s->%s keeps-integers-integral", prog.FnName(fn), cnt[prog.FnName(fn)], from.Name(), to.Name()), x.pos(cv),
+							"the conversion keeps the numeric class", "a "+from.Name()+" is converted to "+to.Name()+" on a counter/primitive value path: operands above 2^53 are rounded and a 32-bit counter loses the wrap-around of a wide operand")
+					}
+				}
+			}
+			if n < 10 {
+				x.C.Vacuous(x.id()+" numeric conversions", n, 10)
+			}
+		}})
+
+	register(&Rule{ID: "LOOP.carry", Min: 3, Text: "a loop that advances an anchor decides with the anchor, not with where it started: in the CRDT model (package crdt), where a loop carries a pointer from iteration to iteration (a variable assigned in the body: leftInChildren = content) that was initialised from another variable before the loop, a comparison inside the loop uses the carried variable — the variable it started from does not appear as an operand of a comparison in that loop unless the carried one is compared in the same loop too (a deliberate 'first iteration' test keeps both). Deciding every iteration by the starting point inserts each item of a multi-item edit at the same slot: the run comes out reversed",
+		Run: func(x *Ctx) {
+			n := 0
+			for _, fn := range x.P.FuncsIn(crdtPkg) {
+				if len(fn.Blocks) == 0 || (fn.Origin() != nil && fn.Origin() != fn) {
+					continue
+				}
+				k := 0
+				for _, l := range prog.Loops(fn) {
+					for _, ins := range l.Header.Instrs {
+						ph, ok := ins.(*ssa.Phi)
+						if !ok {
+							break
+						}
+						if _, isPtr := ph.Type().Underlying().(*types.Pointer); !isPtr {
+							continue
+						}
+						var init ssa.Value
+						updated := false
+						for i, e := range ph.Edges {
+							if l.Body[l.Header.Preds[i]] {
+								if e != ssa.Value(ph) {
+									updated = true
+								}
+							} else {
+								init = e
+							}
+						}
+						if init == nil || !updated {
+							continue
+						}
+						if _, isK := init.(*ssa.Const); isK {
+							continue
+						}
+						// comparisons in the loop
+						usesInit, usesCarried := "", false
+						for b := range l.Body {
+							for _, bi := range b.Instrs {
+								bo, isBO := bi.(*ssa.BinOp)
+								if !isBO || (bo.Op != token.EQL && bo.Op != token.NEQ) {
+									continue
+								}
+								for _, side := range []ssa.Value{bo.X, bo.Y} {
+									if side == init {
+										usesInit = x.pos(bo)
+									}
+									if side == ssa.Value(ph) {
+										usesCarried = true
+									}
+								}
+							}
+						}
+						k++
+						n++
+						x.check(usesInit == "" || usesCarried, fmt.Sprintf("func=%s carried-pointer#%d compared-not-its-starting-point", prog.FnName(fn), k), x.P.Pos(ph.Pos()),
+							"comparisons in the loop use the carried pointer", "a loop that advances a pointer from iteration to iteration compares the variable it started from (at "+usesInit+") and never the advancing one: every iteration takes the decision of the first")
+					}
+				}
+			}
+			if n < 3 {
+				x.C.Vacuous(x.id()+" pointer-carrying loops", n, 3)
+			}
+		}})
+
 	register(&Rule{ID: "PATH.miss", Min: 1, Text: "a path that cannot be walked yields nothing: in package schema, where a loop narrows the walked value with a comma-ok type assertion (getValueByPath: current.(*crdt.Object) per path component), the failing edge leads only to returns whose value is not the partially walked value — a walk that stops at a component which is not an object and returns what it has reached hands the validator the wrong node ($.a.b validated against the primitive at $.a), so a document that breaks the schema is accepted (or a valid one refused) and Update's schema gate no longer means what the schema says",
 		Run: func(x *Ctx) {
 			n := 0
